@@ -51,7 +51,7 @@ theorem readAll_torn {c : Codec ρ} (hc : c.Lawful) (hdr : Bytes) (J : List ρ) 
   unfold readAll fileOf
   have hpre : hdr.isPrefixOf (hdr ++ J.flatMap c.enc ++ p) = true := by
     rw [List.isPrefixOf_iff_prefix]; simp [List.append_assoc]
-  simp only [hpre, if_true, List.append_assoc, List.drop_left]
+  simp only [List.append_assoc, List.drop_left]
   have hl := length_le_flatMap_enc hc J
   obtain ⟨f, hf⟩ : ∃ f, (hdr ++ (J.flatMap c.enc ++ p)).length + 1 = J.length + (f + 1) := by
     refine ⟨(hdr ++ (J.flatMap c.enc ++ p)).length - J.length, ?_⟩
